@@ -138,7 +138,7 @@ Definition c10_required_ops : list string :=
    "mean"; "sum"; "max"; "std"; "reduce"; "quantile"; "cumsum"; "cumprod"; "diff"; "shift";
    "transpose"; "T"; "rename"; "rename_dim"; "assign_coords"; "drop_vars"; "expand_dims"; "sortby"; "concat";
    "copy_deep"; "copy_shallow"; "copy_deep_data"; "copy_shallow_data"; "pipe"; "compute";
-   "isel_drop"; "sel_drop"; "squeeze"; "squeeze_drop"; "squeeze_all_drop"; "isel_missing_dims"; "reset_coords_drop";
+   "isel_drop"; "sel_drop"; "squeeze"; "squeeze_drop"; "isel_missing_dims"; "reset_coords_drop";
    "mean_keep_attrs"; "sum_skipna"; "tail"; "roll"; "swap_dims"; "argmax"; "reindex"; "weighted_mean"; "groupby_mean";
    "drop_isel"; "assign_attrs"].
 Definition c10_known_plain_ops : list string :=
